@@ -413,20 +413,73 @@ func deadEdge(b *ssa.BasicBlock, i int) bool {
 	return i != taken
 }
 
+// viable reports whether successor idx of b can be taken when b was entered from pred (nil =
+// unknown): platform-dead edges are excluded, and an If on a phi of boolean constants is threaded
+// (entering from the predecessor that supplies `true` can only take the true edge).
+func viable(b *ssa.BasicBlock, idx int, pred *ssa.BasicBlock) bool {
+	if deadEdge(b, idx) {
+		return false
+	}
+	if pred == nil || len(b.Instrs) == 0 {
+		return true
+	}
+	ifi, ok := b.Instrs[len(b.Instrs)-1].(*ssa.If)
+	if !ok {
+		return true
+	}
+	base, neg := StripNot(ifi.Cond)
+	ph, ok := base.(*ssa.Phi)
+	if !ok || ph.Block() != b {
+		return true
+	}
+	for i, p := range b.Preds {
+		if p != pred {
+			continue
+		}
+		c, ok := ph.Edges[i].(*ssa.Const)
+		if !ok || c.Value == nil || c.Value.Kind() != constant.Bool {
+			return true
+		}
+		val := constant.BoolVal(c.Value) != neg
+		taken := 1
+		if val {
+			taken = 0
+		}
+		// another predecessor entry from the same block may carry a different constant
+		for k, q := range b.Preds {
+			if q == pred && k != i {
+				return true
+			}
+		}
+		return idx == taken
+	}
+	return true
+}
+
+type bstate struct {
+	b, pred *ssa.BasicBlock
+}
+
 // ReachAvoiding returns the blocks reachable from start without traversing any edge in cut
-// (edges that are dead for the analysed platform are never traversed).
+// (platform-dead edges are never traversed, Ifs on phis of boolean constants are threaded).
 func ReachAvoiding(start *ssa.BasicBlock, cut map[Edge]bool) map[*ssa.BasicBlock]bool {
 	seen := map[*ssa.BasicBlock]bool{start: true}
-	work := []*ssa.BasicBlock{start}
+	sseen := map[bstate]bool{{start, nil}: true}
+	work := []bstate{{start, nil}}
 	for len(work) > 0 {
-		b := work[len(work)-1]
+		st := work[len(work)-1]
 		work = work[:len(work)-1]
-		for i, s := range b.Succs {
-			if cut[Edge{b, i}] || seen[s] || deadEdge(b, i) {
+		for i, s := range st.b.Succs {
+			if cut[Edge{st.b, i}] || !viable(st.b, i, st.pred) {
 				continue
 			}
+			ns := bstate{s, st.b}
+			if sseen[ns] {
+				continue
+			}
+			sseen[ns] = true
 			seen[s] = true
-			work = append(work, s)
+			work = append(work, ns)
 		}
 	}
 	return seen
@@ -434,27 +487,35 @@ func ReachAvoiding(start *ssa.BasicBlock, cut map[Edge]bool) map[*ssa.BasicBlock
 
 // PathAvoiding returns one path (block indices) from start to target avoiding cut edges, or nil.
 func PathAvoiding(start, target *ssa.BasicBlock, cut map[Edge]bool) []int {
-	prev := map[*ssa.BasicBlock]*ssa.BasicBlock{start: nil}
-	queue := []*ssa.BasicBlock{start}
+	first := bstate{start, nil}
+	prev := map[bstate]bstate{}
+	seen := map[bstate]bool{first: true}
+	queue := []bstate{first}
 	for len(queue) > 0 {
-		b := queue[0]
+		st := queue[0]
 		queue = queue[1:]
-		if b == target {
+		if st.b == target {
 			var path []int
-			for x := b; x != nil; x = prev[x] {
-				path = append([]int{x.Index}, path...)
+			for x := st; ; {
+				path = append([]int{x.b.Index}, path...)
+				if x == first {
+					break
+				}
+				x = prev[x]
 			}
 			return path
 		}
-		for i, s := range b.Succs {
-			if cut[Edge{b, i}] || deadEdge(b, i) {
+		for i, s := range st.b.Succs {
+			if cut[Edge{st.b, i}] || !viable(st.b, i, st.pred) {
 				continue
 			}
-			if _, ok := prev[s]; ok {
+			ns := bstate{s, st.b}
+			if seen[ns] {
 				continue
 			}
-			prev[s] = b
-			queue = append(queue, s)
+			seen[ns] = true
+			prev[ns] = st
+			queue = append(queue, ns)
 		}
 	}
 	return nil
